@@ -653,6 +653,16 @@ var verifKinds = map[string]verifKind{
 		}
 		return m
 	}},
+	// two columns whose keyspace and table names are independent arbitrary strings: the global-table-spec decision
+	// (one shared keyspace/table, or one pair per column) depends on how they compare
+	//verif:kind RowsTwoColumns all
+	"RowsTwoColumns": {"RowsTwoColumns", verifAll, func(v primitive.ProtocolVersion) message.Message {
+		cols := []*message.ColumnMetadata{
+			{Keyspace: verifStrNE("c0.ks"), Table: verifStrNE("c0.tbl"), Name: verifStrNE("c0.name"), Type: datatype.Int},
+			{Keyspace: verifStrNE("c1.ks"), Table: verifStrNE("c1.tbl"), Name: verifStrNE("c1.name"), Type: datatype.Varchar},
+		}
+		return &message.RowsResult{Metadata: &message.RowsMetadata{ColumnCount: 2, Columns: cols}}
+	}},
 }
 
 // verifFrame builds an arbitrary version-valid frame around an arbitrary instance of the given kind.
